@@ -195,6 +195,13 @@ class IdentityLinearOperator(ConstantDiagLinearOperator):
         if inv_quad_rhs is None:
             inv_quad_term = torch.empty(0, dtype=self.dtype, device=self.device)
         else:
+            # The identity would otherwise accept a right-hand side with any number of rows
+            if inv_quad_rhs.dim() <= self.batch_dim or inv_quad_rhs.size(self.batch_dim) != self.size(-1):
+                raise RuntimeError(
+                    "LinearOperator (size={}) cannot be multiplied with right-hand-side Tensor (size={}).".format(
+                        self.shape, inv_quad_rhs.shape
+                    )
+                )
             rhs_batch_shape = inv_quad_rhs.shape[1 + self.batch_dim :]
             inv_quad_term = inv_quad_rhs.mul(inv_quad_rhs).sum(-(1 + len(rhs_batch_shape)))
             if reduce_inv_quad:
